@@ -8,7 +8,9 @@ from vlib.term import z, to_coq
 
 ID = 'C08'
 PROP_FILE = 'Props/C08.v'
-EVAL_FILES = ['Oracle/C08Oracle.v', 'Proofs/BroadcastThreadsProofs.v', 'Proofs/BroadcastOrder.v']
+# only what is needed to RUN model and oracle (definitions, no proofs): a change of the compiled constants that breaks the
+# proofs (e.g. a trailer offset) must still be judged on concrete inputs by the oracle
+EVAL_FILES = ['Oracle/C08Oracle.v']
 CRATES = ['c08']
 MODES = ['debug', 'release']
 IMPORTS = ('Require Import V.Base.MachineInt V.Model.LogBase V.Model.Broadcast V.Model.BroadcastThreads V.Model.BroadcastShow V.Spec.Lossy V.Spec.LossyJump V.Oracle.C08Oracle.')
@@ -510,6 +512,11 @@ def known_class(c, mode, obs):
     if c.get('kind') != 'conc' or version() != 'W64':
         return None
     key = (json.dumps(c, sort_keys=True), mode)
+    if 'built' not in _KC_CACHE:
+        # the ghost run lives with the proofs; if they do not build (broken K1 tables) no run can be excused as known
+        _KC_CACHE['built'] = core.coq_build(['Proofs/BroadcastOrder.vo'])[0]
+    if not _KC_CACHE['built']:
+        return None
     if key not in _KC_CACHE:
         fuel = 13 * (len(c['msgs']) + c['nrecv']) + 13
         e = ('h_in (hrun %s %s true W64 (hinit %s %s %s %s %d%%nat) (%s ++ repeat 0 %d%%nat ++ repeat 1 %d%%nat))' % (
